@@ -489,3 +489,68 @@ func FuncLitsIn(n ast.Node) []*ast.FuncLit {
 	})
 	return out
 }
+
+// LatticeOps describes a forward dataflow analysis with an arbitrary state.
+type LatticeOps[S any] struct {
+	Init  S
+	Node  func(S, ast.Node) S
+	Edge  func(S, []Fact) (S, bool)
+	Join  func(a, b S) S
+	Equal func(a, b S) bool
+}
+
+// RunLattice iterates to a fixed point and returns the state at the entry of
+// every reached block.  The caller typically replays Node over the blocks with
+// the final states to collect obligations.
+func RunLattice[S any](f *Flow, ops LatticeOps[S]) map[*cfg.Block]S {
+	in := map[*cfg.Block]S{}
+	if len(f.G.Blocks) == 0 {
+		return in
+	}
+	entry := f.G.Blocks[0]
+	in[entry] = ops.Init
+	work := []*cfg.Block{entry}
+	inWork := map[*cfg.Block]bool{entry: true}
+	iter := 0
+	for len(work) > 0 {
+		iter++
+		if iter > 100000 {
+			panic("RunLattice: no fixed point")
+		}
+		b := work[0]
+		work = work[1:]
+		inWork[b] = false
+		cur := in[b]
+		for _, n := range b.Nodes {
+			cur = ops.Node(cur, n)
+		}
+		for i, succ := range b.Succs {
+			s := cur
+			if ops.Edge != nil {
+				if facts := f.EdgeFacts(b, i); len(facts) > 0 {
+					var ok bool
+					s, ok = ops.Edge(cur, facts)
+					if !ok {
+						continue
+					}
+				}
+			}
+			old, seen := in[succ]
+			var nw S
+			if seen {
+				nw = ops.Join(old, s)
+				if ops.Equal(old, nw) {
+					continue
+				}
+			} else {
+				nw = s
+			}
+			in[succ] = nw
+			if !inWork[succ] {
+				work = append(work, succ)
+				inWork[succ] = true
+			}
+		}
+	}
+	return in
+}
